@@ -19,8 +19,9 @@ import (
 )
 
 // C12 — UC DAO ledger. Ops (line protocol, shared with lean/HaqqModel/Driver/C12.lean):
-//   reset M | mint a d v | enable 0/1 | fund a coins | xferall a b | xferamt a b coins |
-//   xferratio a b rawDec | dump N
+//
+//	reset M | mint a d v | enable 0/1 | fund a coins | xferall a b | xferamt a b coins |
+//	xferratio a b rawDec | dump N
 var c12Denoms = []string{"aISLM", "aLIQUID1", "aLIQUID7", "uatom"}
 
 const c12N = 5
